@@ -228,6 +228,23 @@ def run_site(site: str, mode: Tuple, nfac: Tuple[int, int], pbase: int,
             out = Res(((Unit._multiply if site == "mul" else Unit._divide).__wrapped__(a, b),))
             out.ops = (a, b)
             return out
+        if site.startswith("generic:"):
+            # a method of Unit that calls the constructor and has no harness of its own (a new
+            # operator): called with the operands it may get -- a number, another unit
+            f = getattr(Unit, site.split(":", 1)[1])
+            f = getattr(f, "__wrapped__", f)
+            got = []
+            for arg in (2, b):
+                try:
+                    r_ = f(a, arg)
+                except TypeError:
+                    continue
+                u_ = r_ if isinstance(r_, Unit) else getattr(r_, "unit", None)
+                if isinstance(u_, Unit):
+                    got.append(u_)
+            out = Res(tuple(got))
+            out.ops = (a, b)
+            return out
         if site == "pow":
             return (a ** n,)
         if site == "root":
@@ -312,6 +329,8 @@ def _replay(site: str, base_lines: List[str], nfac: Tuple[int, int], pbase: int,
     op = {"mul": "a * b", "div": "a / b", "pow": f"a ** {n}", "root": f"a.root({n})",
           "ratio": "(format(a, '/'), a.as_ratio())[1]", "quantify": "a.quantify().unit",
           "prefix_mul": f"measured.Prefix({pbase or 10}, {m.get('q_p', 1)}) * a",
+          **({site: "tuple(u for u in (getattr(r_, 'unit', r_) for r_ in (G(a, x) for x in (2, b)) "
+                    "if r_ is not NotImplemented) if isinstance(u, Unit))"} if site.startswith("generic:") else {}),
           "parser": f"(lambda T, tr: (T.unit_sequence.base_func(tr, a ** {n}, b), T.unit.base_func(tr, a ** {n}, b)))"
                     "(measured.parsing.QuantityTransformer, measured.parsing.QuantityTransformer())",
           "from_json": "measured.Unit.__from_json__({'__measured__': 'Unit', 'name': None, 'symbol': None, "
@@ -325,6 +344,11 @@ def inv(u):
             d = d * f.dimension ** e
     return d is u.dimension
 a, b = {f"{a}, {b}" if site != "from_json" else "None, None"}
+def G(u, x):
+    try:
+        return getattr(Unit, {site.split(":", 1)[-1]!r})(u, x)
+    except TypeError:
+        return NotImplemented
 # (from_json) the document another process would have written for `a`, without building `a` here first
 FACTORS = [[B{0}, {m.get('a_e0', 0)}]] + ([[B1, {m.get('a_e1', 0)}]] if {nfac[0]} > 1 else []) + ([[B2, {m.get('a_e2', 0)}]] if {nfac[0]} > 2 else [])
 DIM = Number
@@ -701,12 +725,21 @@ def main(tier: str, selftest_cases: int = 0) -> int:
     unknown = [s for s in sites if not covered_by_harness(s, graph)]
     rep.coverage["sites_covered_through_callers"] = {s_: sorted(graph.get(s_, ())) for s_ in sites
                                                      if s_ not in HANDLED_SITES}
+    import measured
+
+    generic = [s_ for s_ in unknown if s_.startswith("Unit.") and s_.count(".") == 1
+               and callable(getattr(measured.Unit, s_.split(".")[1], None))]
+    unknown = [s_ for s_ in unknown if s_ not in generic]
     if unknown:
         raise symnum.HarnessError(f"Unit constructor call sites without a harness: {unknown}")
+    rep.coverage["constructor_call_sites_under_the_generic_harness"] = generic
     rep.coverage["constructor_call_sites"] = {k: v for k, v in sites.items()}
     constructor_model_check(rep)
     define_history(rep)
-    tasks = families.shuffled(tasks_for(tier), rep.seed)
+    gtasks = [("generic:" + g.split(".")[1], m_, nf, pb) for g in generic
+              for m_ in (("sym", (1, 2, 3)), ("real", tuple(REAL_BASE_SETS[0])))
+              for nf in ((2, 2), (1, 1)) for pb in (10, 0)]
+    tasks = families.shuffled(tasks_for(tier) + gtasks, rep.seed)
     results = par.run("props.c01", "worker", tasks)
     work.merge(rep, results)
     # Unit.define and __from_json__ hand the constructor their arguments unchanged: read off the AST
